@@ -557,3 +557,18 @@ func init() {
 		return time.Duration(fr.i.concIntVal(a[0])).String()
 	}
 }
+
+func init() {
+	externals["maps.clone"] = func(fr *frame, a []value) value {
+		x := a[0].(iface)
+		m, _ := x.v.(*omap)
+		if m == nil {
+			return x
+		}
+		n := &omap{kt: m.kt, idx: map[interface{}]*mentry{}}
+		for _, e := range m.live() {
+			n.insert(fr.i, e.key, e.val)
+		}
+		return iface{t: x.t, v: n}
+	}
+}
